@@ -15,7 +15,9 @@ ASSUMPTIONS = [
     "and on every reported violation",
 ]
 SPEC = {
-    'quick': [('K0p', 'small', 3),
+    'quick': [('K21', 'lend', 4),
+              ('K13', 'lend', 4),
+              ('K0p', 'small', 3),
               ('K1', 'ar', 7),
               ('K10', 'ar', 7),
               ('K16', 'cross', 4),
